@@ -142,17 +142,18 @@ func (c Cfg) Bits() string {
 // the real thing
 
 type world struct {
-	engine   string
-	rt       wazero.Runtime
-	compiled wazero.CompiledModule
-	mu       sync.Mutex
-	mods     map[int]api.Module
-	ptr      map[*wasm.ModuleInstance]int
-	notes    map[int][]uint32
-	allocs   map[int]int
-	frees    map[int]int
-	pool     []int                            // handles of successfully instantiated modules, in response order
-	builders map[int]wazero.HostModuleBuilder // per name: the builder object reused by every "hostb" instantiation
+	engine              string
+	rt                  wazero.Runtime
+	compiled            wazero.CompiledModule
+	mu                  sync.Mutex
+	mods                map[int]api.Module
+	ptr                 map[*wasm.ModuleInstance]int
+	notes               map[int][]uint32
+	allocs              map[int]int
+	frees               map[int]int
+	dirOpens, dirCloses map[int]int                      // per instance: handles handed out by / closed on its mounted (bad) file system
+	pool                []int                            // handles of successfully instantiated modules, in response order
+	builders            map[int]wazero.HostModuleBuilder // per name: the builder object reused by every "hostb" instantiation
 	// one close-notifier registration shared by all `Shared` instantiations
 	sharedCtx   context.Context
 	sharedNotes []uint32
@@ -169,7 +170,7 @@ func newWorld(engine string) *world {
 	}
 	rc = rc.WithCloseOnContextDone(true)
 	w := &world{engine: engine, rt: wazero.NewRuntimeWithConfig(ctx, rc), mods: map[int]api.Module{},
-		ptr: map[*wasm.ModuleInstance]int{}, notes: map[int][]uint32{}, allocs: map[int]int{}, frees: map[int]int{}}
+		ptr: map[*wasm.ModuleInstance]int{}, notes: map[int][]uint32{}, allocs: map[int]int{}, frees: map[int]int{}, dirOpens: map[int]int{}, dirCloses: map[int]int{}}
 	c, err := w.rt.CompileModule(ctx, bin)
 	if err != nil {
 		hx.Fatal("setup compile: %v", err)
@@ -292,19 +293,46 @@ func classifyErr(err error) string {
 }
 
 // badFS: a file system whose (only) directory handle fails to close
+// (every handle it hands out and every Close of one is counted per instance: a closed instance has closed all of them)
 type badFS struct {
 	experimentalsys.UnimplementedFS
+	w *world
+	h int
 }
 
 type badDir struct {
 	experimentalsys.UnimplementedFile
+	w *world
+	h int
 }
 
-func (badFS) OpenFile(string, experimentalsys.Oflag, fs.FileMode) (experimentalsys.File, experimentalsys.Errno) {
-	return badDir{}, 0
+func (f badFS) OpenFile(string, experimentalsys.Oflag, fs.FileMode) (experimentalsys.File, experimentalsys.Errno) {
+	if f.w != nil {
+		f.w.mu.Lock()
+		f.w.dirOpens[f.h]++
+		f.w.mu.Unlock()
+	}
+	return badDir{w: f.w, h: f.h}, 0
 }
 func (badDir) IsDir() (bool, experimentalsys.Errno) { return true, 0 }
-func (badDir) Close() experimentalsys.Errno         { return experimentalsys.EIO }
+func (d badDir) Close() experimentalsys.Errno {
+	if d.w != nil {
+		d.w.mu.Lock()
+		d.w.dirCloses[d.h]++
+		d.w.mu.Unlock()
+	}
+	return experimentalsys.EIO
+}
+
+// dirLeak: directory handles of the instance's mount that were opened and never closed ("" = none)
+func (w *world) dirLeak(h int) string {
+	w.mu.Lock()
+	defer w.mu.Unlock()
+	if w.dirOpens[h] != w.dirCloses[h] {
+		return fmt.Sprintf("handle %d: the mounted file system handed out %d directory handle(s), %d were closed", h, w.dirOpens[h], w.dirCloses[h])
+	}
+	return ""
+}
 
 // raw result of a lookup before pointers are resolved to handles
 type rawRes struct {
@@ -358,7 +386,7 @@ func (w *world) do(o Op) (res rawRes) {
 			// an I/O error from Close): closing such an instance reports the error, but must leave the registry as
 			// any other close does
 			m, err = w.rt.InstantiateModule(ictx, w.compiled, wazero.NewModuleConfig().WithName(nameStr(o.Name)).
-				WithFSConfig(wazero.NewFSConfig().(expsysfs.FSConfig).WithSysFSMount(badFS{}, "/")))
+				WithFSConfig(wazero.NewFSConfig().(expsysfs.FSConfig).WithSysFSMount(badFS{w: w, h: h}, "/")))
 			if err == nil {
 				// the pre-open is opened lazily: do it now.  Another thread may be closing the instance (or the runtime)
 				// at this very moment, which detaches Sys: then there is nothing left to open.
@@ -796,6 +824,9 @@ func runSeq(engine string, ops []Op, cfg Cfg, o *hx.Oracle) {
 				rep.Violate(hx.Violation{Kind: "impl-violation", Signature: "C10:seq-memory-not-freed-exactly-once",
 					What: fmt.Sprintf("handle %d: %d linear memories allocated, %d Free calls", h, allocs, frees), Input: seqCase{engine, concrete}})
 			}
+			if leak := w.dirLeak(h); leak != "" {
+				rep.Violate(hx.Violation{Kind: "impl-violation", Signature: "C10:seq-directory-handle-not-released", What: leak + " after every instance and the runtime were closed", Input: seqCase{engine, concrete}})
+			}
 			continue
 		}
 		realNotes := "-"
@@ -824,6 +855,9 @@ func runSeq(engine string, ops []Op, cfg Cfg, o *hx.Oracle) {
 		if frees != allocs {
 			rep.Violate(hx.Violation{Kind: "impl-violation", Signature: "C10:seq-memory-not-freed-exactly-once",
 				What: fmt.Sprintf("handle %d: %d linear memories allocated, %d Free calls", h, allocs, frees), Input: seqCase{engine, concrete}})
+		}
+		if leak := w.dirLeak(h); leak != "" {
+			rep.Violate(hx.Violation{Kind: "impl-violation", Signature: "C10:seq-directory-handle-not-released", What: leak + " after every instance and the runtime were closed", Input: seqCase{engine, concrete}})
 		}
 		if allocs > 0 && frees != d.fs {
 			rep.Violate(hx.Violation{Kind: "correspondence", Signature: "C10:seq-resource-release-differs-from-impl-model",
@@ -1229,6 +1263,9 @@ func checkConc(w *world, c concCase, cfg Cfg, o *hx.Oracle, budget int, origin s
 				continue
 			}
 			notes, allocs, frees := w.effects(h.Op.H)
+			if leak := w.dirLeak(h.Op.H); leak != "" {
+				rep.Violate(hx.Violation{Kind: "impl-violation", Signature: "C10:conc-directory-handle-not-released", What: origin + ": " + leak + " after the runtime was closed", Input: c})
+			}
 			if frees != allocs {
 				rep.Violate(hx.Violation{Kind: "impl-violation", Signature: "C10:conc-memory-not-freed-exactly-once",
 					What: fmt.Sprintf("%s: handle %d: %d linear memories allocated, %d Free calls after the runtime was closed", origin, h.Op.H, allocs, frees), Input: c})
